@@ -59,7 +59,7 @@ fn ext<T: MaybeDynSized<Header = HeaderTagHeader> + ?Sized, const N: usize>(t: &
     (a, size)
 }
 
-// @harness props=C09 tier=quick panic=allow
+// @harness props=C09,C08 tier=quick panic=allow
 // @encodes multiboot2_header::Multiboot2Header::{load,iter,verify_checksum,header_magic,arch,length,checksum} TagIter::<HeaderTagHeader>::next HeaderTagHeader::payload_len
 // @bound fully symbolic 56-byte header (length = 56, up to 5 tags), enumerated fields defined along the spec walk
 // @assume architecture, tag type, tag flags, console flags, relocation preference hold defined values (the property's precondition)
@@ -166,7 +166,7 @@ getter_harness!(c09_get_efi_bs, efi_boot_services_tag, |t| (t.typ(), t.flags(), 
 #[rustfmt::skip]
 getter_harness!(c09_get_relocatable, relocatable_tag, |t| (t.typ(), t.flags(), t.size(), t.min_addr(), t.max_addr(), t.align(), t.preference()));
 
-// @harness props=C09 tier=quick panic=allow
+// @harness props=C09,C08 tier=quick panic=allow
 // @encodes Multiboot2Header::information_request_tag InformationRequestHeaderTag::{requests,dst_len}
 // @bound fully symbolic 56-byte header (up to 8 requests), defined enumerated fields
 #[cfg_attr(kani, kani::proof)]
@@ -195,7 +195,7 @@ pub fn c09_get_information_request() {
 // C11
 // ---------------------------------------------------------------------------
 
-// @harness props=C11 tier=quick panic=forbid
+// @harness props=C11,C08 tier=quick panic=forbid
 // @encodes Multiboot2Header::iter TagIter::<HeaderTagHeader>::next on valid headers (lock-step with the spec walk from offset 16)
 // @bound 56-byte header whose tag walk tiles the region (<= 5 tags), tag headers fully symbolic within defined enumerated values
 // @assume enumerated fields defined; the header is valid (walk tiles the declared length)
